@@ -592,6 +592,50 @@ func runC06(ctx *core.Ctx) {
 			ctx.Note("L7", "lockedfile#callbacks", token.NoPos, "no caller-supplied function is called while a File is held")
 		}
 	}
+	// ---- L9: the wrappers pass everything on (round 5)
+	ctx.Rule("L9", "nothing between the caller and the lock: filelock.Lock and RLock reach the platform lock call on every path and return its error (a wrapper that reports success for 'unlockable' kinds of file hands out locks nobody holds); lockedfile.OpenFile gives openFile the caller's flag word itself (a rewritten flag changes the kind of lock taken)", 3)
+	for _, nm := range []string{"Lock", "RLock"} {
+		f := p.Func("lockedfile/internal/filelock", nm)
+		if f == nil {
+			ctx.Unknown("L9", "filelock."+nm, token.NoPos, "function not found")
+			continue
+		}
+		fg := graph(p, f)
+		var lk []*ssa.Call
+		for _, c := range fg.Calls(flPkg + ".lock") {
+			lk = append(lk, c)
+		}
+		ok := len(lk) > 0
+		why := ""
+		for _, r := range fg.Returns() {
+			rv := ssax.ReturnValues(r)[0]
+			behind := false
+			for _, c := range lk {
+				if fg.Dominates(c, r) {
+					behind = true
+					// the lock call's own error, or nil known only because that error is nil
+					if rr := fg.Resolve(ssax.Strip(rv), r); rr != ssa.Value(c) && rv != ssa.Value(c) && !(ssax.IsNil(rv) && ssax.KnownNil(fg.FactsAtInstr(r), c, true)) {
+						ok, why = false, "a return after the lock call does not return its error"
+					}
+				}
+			}
+			if !behind {
+				ok, why = false, "a return is reachable without the lock call"
+			}
+		}
+		ctx.Check(ok, "L9", "filelock."+nm+"#always-locks", f.Pos(), "every return of %s lies behind the platform lock call and yields its error %s", nm, why)
+	}
+	{
+		og := graph(p, OpenFile)
+		n := 0
+		for _, c := range og.Calls(lfPkg + ".openFile") {
+			n++
+			ctx.Check(len(OpenFile.Params) >= 2 && c.Call.Args[1] == ssa.Value(OpenFile.Params[1]), "L9", "lockedfile.OpenFile#flag-passed"+itoa(n), c.Pos(), "openFile receives OpenFile's flag parameter unchanged")
+		}
+		if n == 0 {
+			ctx.Unknown("L9", "lockedfile.OpenFile#flag-passed", OpenFile.Pos(), "OpenFile does not call openFile")
+		}
+	}
 	if ml := ctx.Need("L6", "lockedfile", "(*Mutex).Lock"); ml != nil {
 		mg := graph(p, ml)
 		okc := false
